@@ -309,11 +309,18 @@ pub fn run(ctx: &mut Ctx) {
         }
         // non-canonical CBOR encodings of the same item
         let n = count_nodes(&item);
-        for _ in 0..4 {
+        for _ in 0..5 {
             let q = *rng.pick(&ALL_QUIRKS);
-            let (b, applied) = encode_quirk(&item, rng.below(n), q);
-            if applied && b != valid {
-                judge(ctx, &b, &format!("quirk:{:?}", q));
+            let start = rng.below(n);
+            for off in 0..n.min(48) {
+                let (b, applied) = encode_quirk(&item, (start + off) % n, q);
+                if applied {
+                    if b != valid {
+                        ctx.count(&format!("quirk_{:?}", q));
+                        judge(ctx, &b, &format!("quirk:{:?}", q));
+                    }
+                    break;
+                }
             }
         }
         // byte-level mutations
